@@ -53,6 +53,7 @@ type c14Model struct {
 	par1     bool
 	nFiles   int
 	variants []int // usable variants
+	active   []int // files that damage / restore events touch (nil: all); the others stay original
 	paths    []string
 	data     [][]byte
 	vols     []string // recovery / volume file paths
@@ -158,6 +159,9 @@ func (m *c14Model) classify(fs *envfs.FS) (c14State, string) {
 func (m *c14Model) events(s c14State) []c14Event {
 	var ev []c14Event
 	for f := 0; f < m.nFiles; f++ {
+		if m.active != nil && !containsInt(m.active, f) {
+			continue
+		}
 		for _, w := range m.variants {
 			if w != vOrig && w != s[f] {
 				ev = append(ev, c14Event{Op: "dmg", F: f, W: w})
@@ -365,6 +369,37 @@ func c14Build(name string, seed int64) *c14Model {
 		m.nFiles = len(cfg.Sizes)
 		m.paths, m.data, m.vols, m.fs0, m.index = s.Paths, s.Data, s.VolPaths, s.FS0, s.Index
 		m.variants = []int{vOrig, vMissing, vFirstChanged, vEmpty, vOther}
+	case "p1full", "p1vol99":
+		// PAR1 at the format's limits: 254 files + 2 volumes fill the 256-shard space; volume number 99 is the last one the
+		// naming scheme (.p01 .. .p99) allows. Events touch the first and last file and the lowest / highest volume.
+		var cfg scen.P1Config
+		if name == "p1full" {
+			sz := make([]int, 254)
+			for i := range sz {
+				sz[i] = 2 + i%3
+			}
+			cfg = scen.P1Config{Sizes: sz, Volumes: 2}
+		} else {
+			cfg = scen.P1Config{Sizes: []int{7, 4, 9}, Volumes: 99}
+		}
+		s, err := scen.GetP1(cfg, seed)
+		if err != nil {
+			panic(err)
+		}
+		m.p1 = s
+		m.par1 = true
+		m.nFiles = len(cfg.Sizes)
+		m.paths, m.data, m.index = s.Paths, s.Data, s.Index
+		m.fs0 = s.FS0.Clone()
+		m.active = []int{0, m.nFiles - 1}
+		m.variants = []int{vOrig, vMissing, vFirstChanged}
+		for i, v := range s.VolPaths {
+			if i == 0 || i == len(s.VolPaths)-1 {
+				m.vols = append(m.vols, v)
+			} else {
+				m.fs0.Del(v) // the volumes in between never arrived
+			}
+		}
 	default:
 		panic("unknown model " + name)
 	}
@@ -579,7 +614,7 @@ func init() {
 	core.Register(&core.Prop{
 		ID:    "C14",
 		Level: "model_checking",
-		Rule: "explicit-state breadth-first search to closure of the directory-state graph. PAR2 small: 2 files (one slice-aligned, both ending in zero bytes) x 9 contents {original, missing, first byte changed, last byte dropped, one byte prepended, other file's content, empty, garbage byte appended, zero byte appended} x 3 recovery files {present, absent}; PAR2 large: 3 files x 9 contents x 4 recovery files; PAR1: 3 files x 5 contents x 2 volumes; thorough adds 3 files x 9 contents x 5 recovery files (16 blocks), 4 files x 9 contents x 3 recovery files, and PAR1 4 files x 5 contents x 3 volumes. " +
+		Rule: "explicit-state breadth-first search to closure of the directory-state graph. PAR2 small: 2 files (one slice-aligned, both ending in zero bytes) x 9 contents {original, missing, first byte changed, last byte dropped, one byte prepended, other file's content, empty, garbage byte appended, zero byte appended} x 3 recovery files {present, absent}; PAR2 large: 3 files x 9 contents x 4 recovery files; PAR1: 3 files x 5 contents x 2 volumes; PAR1 at the format's limits: 254 files + volumes .p01/.p02 (full 256-shard space; events on the first and last file, 3 contents) and 3 files with volumes .p01 and .p99 of 99 (the volumes in between never arrived); thorough adds 3 files x 9 contents x 5 recovery files (16 blocks), 4 files x 9 contents x 3 recovery files, and PAR1 4 files x 5 contents x 3 volumes. " +
 			"Events: damage(f,w), restore(f), delete/restore recovery file, Verify, Repair, Repair+double-check. The small PAR2 and the PAR1 model are searched twice: on the owned in-memory filesystem and through the exported API on a real directory (rewrites detected by modification time). Every Verify/Repair transition executes the real code on a fresh filesystem built from the state (gopar keeps no state between calls). Invariants on every transition: Verify leaves the state unchanged and gives equal results for equal states; successful Repair => all original, Verify clean, a further Repair in both modes writes nothing and lists nothing; failed Repair => every file holds its previous content or its original; from every reachable state, restoring all recovery files and repairing reaches the original whenever capacity suffices. non-trivial = states in which Repair wrote files or failed",
 		Assumptions: []string{"state abstraction = exact directory contents (no merging), so no hidden futures are lost", "gopar keeps no state between top-level calls (each builds its decoder from disk)"},
 		NewCase:     func() interface{} { return &c14Case{} },
@@ -590,7 +625,11 @@ func init() {
 			// the same small models with every Verify / Repair transition executed through the exported API on a real directory
 			g.Emit(&c14Case{Model: "p2small-disk"})
 			g.Emit(&c14Case{Model: "p1-disk"})
+			g.Emit(&c14Case{Model: "p1full"})
+			g.Emit(&c14Case{Model: "p1vol99"})
 			if g.Thorough() {
+				g.Emit(&c14Case{Model: "p1full-disk"})
+				g.Emit(&c14Case{Model: "p1vol99-disk"})
 				g.Emit(&c14Case{Model: "p2four"})
 				g.Emit(&c14Case{Model: "p2huge"})
 				g.Emit(&c14Case{Model: "p1large"})
@@ -617,4 +656,13 @@ func init() {
 			}
 		},
 	})
+}
+
+func containsInt(xs []int, x int) bool {
+	for _, y := range xs {
+		if y == x {
+			return true
+		}
+	}
+	return false
 }
